@@ -11,7 +11,9 @@ pids = sys.argv[2:] or [sys.argv[1].split("-")[0]]
 import os, shutil
 COPY = Path(f"/var/tmp/seedrepo.{os.getpid()}")
 subprocess.run(["rsync", "-a", "--exclude", "_build", "--exclude", ".git", "/repo/", str(COPY) + "/"], check=True)
-subprocess.run(["git", "apply", str(d / "patch.diff")], check=True, cwd=COPY)
+if subprocess.run(["git", "apply", str(d / "patch.diff")], cwd=COPY).returncode != 0:
+    # /repo moved on (fix commits) since the seed was written: retry with reduced context
+    subprocess.run(["git", "apply", "-C1", "--recount", str(d / "patch.diff")], check=True, cwd=COPY)
 ENV = dict(os.environ, VERIF_REPO=str(COPY))
 res = {}
 saved = {p: (V / "evidence" / f"{p}.json").read_text() for p in pids if (V / "evidence" / f"{p}.json").exists()}
